@@ -86,7 +86,7 @@ def insertCheck (g : Grammar) (host ins r : DTree) : Bool :=
 
 /-- result checker for the fuzzer's completion of an open tree -/
 def completionCheck (g : Grammar) (t r : DTree) : Bool :=
-  r.valid g && r.closed && idPrefixOf t r
+  r.valid g && r.closed && embedsAt t r
 
 /-- result checker for a mutation of a closed tree -/
 def mutationCheck (g : Grammar) (t r : DTree) : Bool :=
